@@ -16,6 +16,7 @@ from ..run import Outcome
 
 ID = "C12"
 BUDGET = {"quick": 16000, "thorough": 200000}
+FUZZ = {"thorough": 6000}  # coverage-guided stage: libFuzzer runs per worker (x16), see vk/fuzz.py
 RULE = (
     "Hypothesis: (a) profile of 1-8 ballots with tied positions (partial, duplicates, int/p/q "
     "weights, zero-vote candidates, sometimes scores) x removal set (none/some/all/absent names) "
